@@ -19,6 +19,11 @@ SYMS = {
     "unknownreq": (1, 6, "workspace/symbolFoo", {}),
     "docnote": (0, 5, "textDocument/didOpen", OPEN),
     "unknownnote": (0, 6, "$/setTrace", {"value": "off"}),
+    # $/cancelRequest: a notification like any other for the lifecycle (the server answers every request itself, in order);
+    # the id is filled in by frames(): the request at the NEXT position / two positions later / the previous position
+    "cancel-next": (0, 6, "$/cancelRequest", {"id": +1}),
+    "cancel-later": (0, 6, "$/cancelRequest", {"id": +2}),
+    "cancel-previous": (0, 6, "$/cancelRequest", {"id": -1}),
     "shutdown": (1, 1, "shutdown", None),
     "exit": (0, 4, "exit", None),
     # odd combinations outside the 8-symbol alphabet (random stream only)
@@ -44,6 +49,7 @@ BIG_TEXT = "".join("// procedure %d\nproc p%d(a: int, ref b: int) {\n  var i: in
 SYMS["bigdoc"] = (0, 5, "textDocument/didOpen", {"textDocument": {"uri": "file:///a.spl", "languageId": "spl", "version": 1, "text": BIG_TEXT}})
 REQUEST_KINDS = ["supported", "fold", "format", "semtok", "complete", "refs", "rename", "sighelp", "goto", "unknownreq"]
 BASE = ["initialize", "initialized", "supported", "unknownreq", "docnote", "unknownnote", "shutdown", "exit"]
+CANCELS = ["cancel-next", "cancel-later", "cancel-previous"]
 CODES = {-32002: 1, -32600: 2, -32601: 3}
 
 
@@ -64,6 +70,9 @@ def frames(session, idmap=None):
         if isreq:
             m["id"] = idmap[pos] if idmap else pos
         if params is not None:
+            if method == "$/cancelRequest":
+                target = max(1, pos + params["id"])
+                params = {"id": idmap[target] if idmap and target in idmap else target}
             m["params"] = params
         out.append(lspclient.frame(m))
     return out
@@ -207,6 +216,12 @@ def gen(ctx):
         body.insert(ctx.rng.randrange(len(body) - 1), "format")
         sess = ["initialize", "initialized", "bigdoc"] + body + ["shutdown", "exit"]
         cases.append(("request-kinds-big-document", sess, b"".join(frames(sess)), command(sess)))
+    # clients that cancel: ahead of the request, behind it, with the id used again by a later request
+    for _ in range(200 if ctx.thorough() else 50):
+        body = [ctx.rng.choice(BASE + CANCELS * 2) for _ in range(ctx.rng.randint(3, 9))]
+        sess = (["initialize", "initialized"] if ctx.rng.random() < 0.85 else []) + body + (["shutdown", "exit"] if ctx.rng.random() < 0.6 else [])
+        im = odd_ids(len(sess)) if ctx.rng.random() < 0.3 else None
+        cases.append(("cancel", sess, b"".join(frames(sess, im)), command(sess)) + ((im,) if im else ()))
     # the same kind of sessions with request ids from all over the i32 range (negative, zero, extremes)
     for _ in range(200 if ctx.thorough() else 40):
         body = [ctx.rng.choice(BASE) for _ in range(ctx.rng.randint(1, 6))]
